@@ -52,6 +52,8 @@ type Response struct {
 	TxID  string `json:"txid,omitempty"`
 	Panic string `json:"panic,omitempty"`
 	Tx    *ledger.Transaction `json:"-"`
+	// Content: the JSON of the transaction the call returned, taken at the moment it returned
+	Content string `json:"content,omitempty"`
 	// Persisted: number of log entries on disk when the call returned
 	Persisted int `json:"persisted"`
 }
@@ -524,6 +526,11 @@ func (s *Sched) call(ctx context.Context, c *command.Commander, r Req) (resp Res
 			resp = Response{Panic: fmt.Sprint(e)}
 		}
 		resp.Persisted = len(s.Disk.snapshot())
+		if resp.Tx != nil {
+			if b, err := json.Marshal(resp.Tx); err == nil {
+				resp.Content = string(b)
+			}
+		}
 	}()
 	p := command.Parameters{DryRun: r.DryRun, IdempotencyKey: r.IK}
 	switch r.Kind {
